@@ -175,13 +175,13 @@ def miri_setup(targets):
     return ok
 
 
-def miri_run(pid, target_key, seed, nshards, timeout_s, extra=None):
+def miri_run(pid, target_key, seed, nshards, timeout_s, extra=None, rustflags="--cfg elf_verif_hooks", tdir="miri"):
     """Run `elfmon run <pid> --tier miri` under Miri for a foreign target, sharded."""
     target = MIRI_TARGETS[target_key]
     env = base_env()
-    env["RUSTFLAGS"] = "--cfg elf_verif_hooks"
+    env["RUSTFLAGS"] = rustflags
     env["MIRIFLAGS"] = "-Zmiri-disable-isolation"
-    env["CARGO_TARGET_DIR"] = os.path.join(TARGET, "miri")
+    env["CARGO_TARGET_DIR"] = os.path.join(TARGET, tdir)
     wd = workdir(f"{pid}-miri-{target_key}")
     # build once (serially) so that the shards do not all wait on the build lock with a cold cache
     b = subprocess.run(["cargo", "+nightly", "miri", "run", "--target", target, "--", "list"], cwd=HARNESS, env=env, capture_output=True, text=True, timeout=1800)
@@ -221,18 +221,18 @@ def miri_run(pid, target_key, seed, nshards, timeout_s, extra=None):
     return reports, problems
 
 
-def _miri_phase(pid, seed, targets, nshards=16, timeout_s=3000):
+def _miri_phase(pid, seed, targets, nshards=16, timeout_s=3000, variants=(("checked", "--cfg elf_verif_hooks", "miri"),)):
     res = {"violations": [], "inconclusive": [], "counters": {}, "maxes": {}, "samples": [], "evaluations": 0, "digests": set(), "coverage": {"targets": []}}
     if not miri_setup(targets):
         res["inconclusive"].append("miri sysroot setup failed")
         return res
-    for t in targets:
-        reports, problems = miri_run(pid, t, seed, nshards, timeout_s)
+    for t, (vname, flags, tdir) in [(t, v) for t in targets for v in variants]:
+        reports, problems = miri_run(pid, t, seed, nshards, timeout_s, rustflags=flags, tdir=tdir)
         if reports is None:
             res["inconclusive"].extend(problems)
             continue
         m = merge_reports(reports)
-        p = _prefixed(m, f"miri-{t}")
+        p = _prefixed(m, f"miri-{t}-{vname}")
         for v in p["violations"]:
             v["tier"] = "miri"
             v["detail"] = f"[under Miri, target {MIRI_TARGETS[t]}] " + v["detail"]
@@ -243,7 +243,7 @@ def _miri_phase(pid, seed, targets, nshards=16, timeout_s=3000):
         res["samples"].extend(p["samples"])
         res["counters"].update(p["counters"])
         res["maxes"].update(p["maxes"])
-        res["coverage"]["targets"].append({"target": MIRI_TARGETS[t], "shards": len(reports), "evaluations": m["evaluations"]})
+        res["coverage"]["targets"].append({"target": MIRI_TARGETS[t], "build": vname, "shards": len(reports), "evaluations": m["evaluations"]})
     return res
 
 
@@ -256,7 +256,12 @@ def miri_c04(pid, tier, seed):
 
 
 def miri_c16(pid, tier, seed):
-    return _miri_phase("C16", seed, ["i686"])
+    # both arithmetic modes on a 32-bit usize: with overflow checks an overflow is a panic (C01's finding),
+    # without them a wrapped counter becomes a runaway iteration, which is what C16 is about
+    return _miri_phase("C16", seed, ["i686"], variants=(
+        ("checked", "--cfg elf_verif_hooks", "miri"),
+        ("wrapping", "--cfg elf_verif_hooks -C overflow-checks=off -C debug-assertions=off", "miri-wrap"),
+    ))
 
 
 # --------------------------------------------------------------------------- libFuzzer
